@@ -253,9 +253,9 @@ def run(res, proof):
         res.count('stale_twins_' + kind, len(twins))
         del olds, twins
     from .pysetters_stream import source_derived_pysetters
-    source_derived_pysetters(res, proof)      # the read-only setters as translated from the working tree against the real objects
+    core.run_stream(source_derived_pysetters, res, proof)      # the read-only setters as translated from the working tree against the real objects
     from .pydunders_stream import source_derived_pydunders
-    source_derived_pydunders(res, proof)     # the comparison methods as translated from the working tree, all ordered pairs
+    core.run_stream(source_derived_pydunders, res, proof)     # the comparison methods as translated from the working tree, all ordered pairs
     for l in hl[:8]:
         res.sample(l)
     res.rule = ('populations: 34 domains (incl. numbered / mixed names and other lengths in other registries), %d complexes (incl. pairs differing only in structure and copies in a subclass registry), %d '
